@@ -40,6 +40,7 @@ FailsUn(e) ==
   LET tg == Targets(Table(e), e.x) IN
      If(~e.raised, "C14.rule_application_raised")
   \cup If(e.xa = e.x, "C14.arguments_changed")
+  \cup If("tn0" \notin DOMAIN e \/ e.tn0 = e.tn1, "C14.arguments_changed")        \* the unary table is an argument too: a lookup must not grow it
   \cup If(e.raised \/ (Len(e.res) = Len(tg) /\ \A i \in DOMAIN tg : e.res[i].c = tg[i][2]), "C14.unary_not_exactly_configured_targets")
   \cup (IF e.raised \/ e.lang # "ja" THEN {} ELSE Pre("C04.", J!JaUnaryFails(e)))
 
